@@ -27,6 +27,10 @@ fn main() {
         }
         return;
     }
+    if args.len() >= 3 && args[1] == "--lut" {
+        pv_kani::lut_dump::dump(&args[2]);
+        return;
+    }
     if args.len() >= 3 && args[1] == "--run" {
         let name = &args[2];
         let data: Vec<Vec<u8>> = if args.len() >= 4 && !args[3].is_empty() {
